@@ -15,7 +15,7 @@ let split_masks toks =
     | t :: r -> go (t :: cur) acc r in
   Stdlib.List.map paths_of (go [] [] toks)
 
-(* schema token: msg;msg;...   msg = xNAME:field,field,...   field = xNAME/k/rep/ref *)
+(* schema token: msg;msg;...   msg = xNAME:field,field,...   field = xNAME/k/rep/ref/xTEXTNAME *)
 let schemas : (string, FieldMaskModel.schema) Hashtbl.t = Hashtbl.create 8
 let parse_schema tok =
   let msgs = String.split_on_char ';' tok in
@@ -28,9 +28,9 @@ let parse_schema tok =
       let fields = if rest = "" then [] else
         Stdlib.List.map (fun f ->
           match String.split_on_char '/' f with
-          | [n; k; rep; r] ->
+          | [n; k; rep; r; tx] ->
             let r = nat_of_int (int_of_string r) in
-            { FieldMaskModel.f_name = bytes_of_hex n;
+            { FieldMaskModel.f_name = bytes_of_hex n; f_text = bytes_of_hex tx;
               f_kind = (match k with "s" -> FieldMaskModel.KScalar | "m" -> FieldMaskModel.KMessage r
                                     | "g" -> FieldMaskModel.KGroup r | _ -> failwith "bad kind");
               f_rep = bool_of_tok rep }
